@@ -283,9 +283,20 @@ def check_C14(run):
         jobs += [(n, 1, "include") for n in DP_MID] + [(255, 1, "development"), (254, 0, "include")]
     def one(j):
         n, h, v = j
-        b, log = common.build_binary(src, ["-DH_N=%d" % n, "-DH_HEAD=%d" % h], v)
-        if b is None: return j, None, log, None
+        keep = n <= 65 or tier == "quick"          # the big machines' binaries (up to 60 MB each, 255 of them) are not worth caching
+        tmpd = None
+        if keep:
+            b, log = common.build_binary(src, ["-DH_N=%d" % n, "-DH_HEAD=%d" % h], v)
+        else:
+            tmpd = tempfile.mkdtemp(prefix="ffsm2-dp.", dir="/var/tmp"); b = os.path.join(tmpd, "bin")
+            r = subprocess.run(["g++", "-std=c++11", "-O0", "-w", "-ftemplate-depth=2000"] + common.VARIANTS[v] + ["-DH_N=%d" % n, "-DH_HEAD=%d" % h, src, "-o", b], capture_output=True, text=True)
+            log = r.stderr[-3000:]
+            if r.returncode != 0: b = None
+        if b is None:
+            if tmpd: shutil.rmtree(tmpd, ignore_errors=True)
+            return j, None, log, None
         rc, out, err = common.run_proc([b], "", timeout=60)
+        if tmpd: shutil.rmtree(tmpd, ignore_errors=True)
         mrc, mout, merr = common.run_proc([common.model_runner(), "dp", str(n), str(h)], "", timeout=120)
         return j, (rc, out, err), None, (mrc, mout, merr)
     # big machines need about 1 GB of compiler memory each: bound the parallelism by size
